@@ -318,22 +318,50 @@ func TestVerif_C17_e2eresend(t *testing.T) {
 			}
 		}
 		o.take()
-		resp, err := req.Post(o.base + path + "?id=" + proto + strconv.Itoa(i))
-		seen := o.take()
+		cid := "id=" + proto + strconv.Itoa(i)
+		resp, err := req.Post(o.base + path + "?" + cid)
+		// only this case's requests: a broken request of an EARLIER case (a streamed body that a
+		// redirect refused: its truncated second request ends at the origin with a read error)
+		// may be recorded after that case took its list
+		var seen []c17Seen
+		for _, sn := range o.take() {
+			if sn.Query == cid {
+				seen = append(seen, sn)
+			}
+		}
 		ok := err == nil && resp != nil && resp.StatusCode == 200 && len(seen) >= 2
 		detail := ""
 		streamed := kind == "multipart-chunked" || kind == "multipart-callback"
-		if streamed && strings.HasPrefix(mech, "redir") && err != nil {
-			// a streamed body cannot be produced again for a redirect: the call fails loudly,
-			// nothing wrong is accepted by the origin under a 200 — not a C17 matter
-			s.Count("streamed-redirect-refused")
-			ok = true
+		// A streamed body (pipe) cannot be produced again by net/http: the documented outcome is
+		// that it is NOT re-sent at all — the caller gets the first answer (the 307/308, the 503)
+		// or the transport's error. Accepted exactly when nothing but the first request reached
+		// the origin and that first request carried the complete, exact body (checked below).
+		// A second request that the origin read to its end — truncated, empty, garbled or not —
+		// stays a violation.
+		notResent := false
+		if streamed && !ok {
+			s.Count("streamed-not-resent")
+			accepted := 0
 			for _, sn := range seen {
-				if sn.Path == "/final" && sn.BodyErr == nil && sn.Status == 200 {
-					ok = false
-					detail = "the call failed but the origin accepted a request at the redirect target"
+				if sn.BodyErr == nil {
+					accepted++
 				}
 			}
+			switch {
+			case err == nil && resp != nil && resp.Response != nil && len(seen) == 1 && seen[0].BodyErr == nil && resp.StatusCode == seen[0].Status && resp.StatusCode != 200:
+				notResent, ok = true, true
+			case err != nil && accepted <= 1 && (len(seen) == 0 || seen[0].BodyErr == nil || accepted == 0):
+				notResent, ok = true, true
+			default:
+				detail = fmt.Sprintf("err=%v requests seen=%d, read to the end by the origin=%d", err, len(seen), accepted)
+				if resp != nil && resp.Response != nil {
+					detail += " status=" + strconv.Itoa(resp.StatusCode)
+				}
+			}
+		}
+		if notResent && (len(seen) == 0 || seen[0].BodyErr != nil) {
+			// nothing complete reached the origin: nothing to compare
+		} else if streamed && !ok {
 		} else if !ok {
 			detail = fmt.Sprintf("err=%v requests seen=%d", err, len(seen))
 			if resp != nil && resp.Response != nil {
@@ -341,7 +369,10 @@ func TestVerif_C17_e2eresend(t *testing.T) {
 			}
 		} else {
 			last := seen[len(seen)-1]
-			if last.Status != 200 || last.BodyErr != nil || (last.CL >= 0 && last.CL != int64(len(last.Body))) {
+			if notResent {
+				last = seen[0] // the one request that was sent must still be exact
+			}
+			if (last.Status != 200 && !notResent) || last.BodyErr != nil || (last.CL >= 0 && last.CL != int64(len(last.Body))) {
 				ok = false
 				detail = fmt.Sprintf("last request: status=%d bodyErr=%v declared=%d arrived=%d", last.Status, last.BodyErr, last.CL, len(last.Body))
 			}
